@@ -60,9 +60,19 @@ func C02(p *load.Prog, r *oblig.Run) {
 	r.Explanation = "Path rules over the SSA control-flow graph of Decoder.Decode (E6). R02.a: on every simple path from the successful return of parseLine to the next loop iteration the parsed node is attached exactly once " +
 		"(Document.AddNode for roots, AddNode on an open node otherwise) - never zero times (line dropped) and never twice (duplicated). R02.b: the parent of a non-root attach is the element of the stack of open nodes at (level-1), " +
 		"and on every path to that attach the new node has been put on the stack at its own level (append / slot store after re-slicing to level+1). R02.c: a document is only returned after the pointer index was built (buildPointerCache) or every root went through Document.AddNode, " +
-		"which indexes it. R02.d: the value of the previous node is trimmed before every attach and before the document is returned; R02.e: readLine ends a line at CR or LF and at nothing else, and blank lines are skipped before parsing."
+		"which indexes it. R02.d: the value of the previous node is trimmed before every attach and before the document is returned; R02.e: readLine ends a line at CR or LF and at nothing else, and blank lines are skipped before parsing. R02.i: every path that ends the read loop without an error (the loop flag becomes true, or a break to the successful return) passes the edge on which readLine's error is set - the loop never ends because of what a line contains."
 	r.NotDecided = "equality of the built tree with a reference parser for all byte strings; the leniency modes' exact reference semantics; the re-encode fixpoint."
 	r.Assumptions = []string{"go/ssa's control-flow graph of Decode; callees resolved by type information"}
+	c02Rules(p, r)
+	// the normal-form clause: the writer's line format and the encoder's traversal (C01's rules) are obligations here too
+	r.Rule("R01.b", "the line writer emits exactly 'level [@ptr@] TAG [value]'", 12)
+	c01Writer(p, r)
+	c01Encoder(p, r)
+}
+
+// c02Rules: the decoder-loop rules; C01 (encode/decode round trip) runs them
+// as well, because a line the decoder drops or re-parents breaks the round trip.
+func c02Rules(p *load.Prog, r *oblig.Run) {
 	dec := p.Method(load.PkgRoot, "Decoder", "Decode")
 	parse := p.Func(load.PkgRoot, "parseLine")
 	if dec == nil || parse == nil {
@@ -271,6 +281,7 @@ func C02(p *load.Prog, r *oblig.Run) {
 			"trimNodeValue(previousNode) after the loop", "the value of the last node of the file is never trimmed")
 	}
 	c02ReadLine(p, r)
+	c02LoopEnds(p, r, dec, header)
 	c02AttachOps(p, r)
 	c02TrimOnlyEnds(p, r)
 }
